@@ -19,6 +19,15 @@ every capacity pair (including unbounded), every initial address / length; addre
 row capacity at least 1 (a zero-capacity stack panics in `UnwindContext::new_in`, API misuse).
 `tailOf bad` is how instruction *decoding* ended after the listed instructions: `none` = the
 stream ended cleanly, `some e` = the next instruction is undecodable with error `e`.
+
+**Reused contexts.** `Unwind.unwind` starts from `UnwindContext::new_in()`.  That the same rows and
+outcome are produced on a context used before for anything else (rows, initial rule, flag and
+stale storage left by successful or failed evaluations) is C20's
+`Gimli.Props.C20.unwind_reused_eq_fresh` / `unwind_history_reused_eq_fresh`
+(`lean/Gimli/Props/C20.lean`), proved for exactly this Model (`initializeCtx` begins with `reset`);
+so every theorem below holds for reused contexts too.  The correspondence run checks the same on
+the implementation: every case is evaluated on a fresh context and again on a context dirtied by
+one or two programs from a pool (direct-oracle class `reused-context-differs`).
 -/
 namespace Gimli.Props.C06
 open Gimli Gimli.Cfi Gimli.Unwind Gimli.Spec.Unwind
